@@ -579,6 +579,10 @@ impl Engine for C15 {
     }
 
     fn generate(&self, seed: u64, i: u64, _tier: Tier) -> Value {
+        if i % 1500 == 749 {
+            // known finding K2: a bare program name looked up through an overridden PATH (real OS)
+            return json!({"kind": "real", "shape": "path-sh", "args": ["a b", "*"]});
+        }
         if i % 50 == 49 {
             return gen_real(&mut Rng::stream(seed, self.tag() ^ 0x4ea1, i));
         }
@@ -860,6 +864,9 @@ impl Engine for C15 {
             c[k] = x;
             c
         };
+        if case["shape"] == "path-sh" {
+            return v;
+        }
         if case["kind"] == "real" {
             for key in ["args", "env"] {
                 let a = case[key].as_array().unwrap();
@@ -1062,7 +1069,51 @@ fn gen_real(r: &mut Rng) -> Value {
 
 /// The un-hooked `naija` binary runs the builder script against the real OS; the real helper
 /// child reports what it received.
+/// The script overrides PATH and names its program without a slash; the file found there is
+/// executable but is neither a binary nor a `#!` script. Running it directly is an "Exec format error";
+/// whatever happens, no shell may interpret it.
+fn exec_real_path_sh(case: &Value) -> RunResult {
+    use std::os::unix::fs::PermissionsExt;
+    let mut res = RunResult::new();
+    res.trace_hash = fnv(0, &serde_json::to_vec(case).unwrap());
+    res.nontrivial = true;
+    res.count("real_os_cross_checks", 1);
+    res.count("real_bare_name_through_overridden_path", 1);
+    let dir = format!("{}/pathdir", realos::tmp_dir());
+    let _ = std::fs::create_dir_all(&dir);
+    let marker = format!("{dir}/interpreted.marker");
+    let _ = std::fs::remove_file(&marker);
+    let tool = format!("{dir}/vktool");
+    // a shell would run this line; nothing else can make sense of the file
+    if std::fs::write(&tool, format!("echo \"$0 $# $1\" > '{marker}'\n")).is_err()
+        || std::fs::set_permissions(&tool, std::fs::Permissions::from_mode(0o755)).is_err()
+    {
+        res.verdict = Verdict::Discard("cannot-create-tool".into());
+        return res;
+    }
+    let mut src = format!("make c get command(\"vktool\")\nc.env(\"PATH\", {})\n", strlit(&dir));
+    for a in case["args"].as_array().unwrap() {
+        src += &format!("c.arg({})\n", strlit(a.as_str().unwrap()));
+    }
+    src += "c.stdout_capture()\nmake r get c.run()\nshout(r.exit_code())\n";
+    let run = match realos::run_naija(&src, None) {
+        Ok(r) => r,
+        Err(m) => return res.violation("harness", m),
+    };
+    res.detail = json!({"script": src});
+    if let Ok(seen) = std::fs::read_to_string(&marker) {
+        return res.violation(
+            "shell-ran-the-program-file",
+            format!("real OS: `command(\"vktool\")` with PATH overridden to a directory holding an executable text file without `#!`: a shell interpreted the file (it saw `$0 $# $1` = {:?}); naija exited {}", seen.trim(), run.code),
+        );
+    }
+    res
+}
+
 fn exec_real(case: &Value) -> RunResult {
+    if case["shape"] == "path-sh" {
+        return exec_real_path_sh(case);
+    }
     let mut res = RunResult::new();
     res.trace_hash = fnv(0, &serde_json::to_vec(case).unwrap());
     res.nontrivial = true;
